@@ -12,8 +12,8 @@ P = {
          "DESIGN.md 6 C01, 11.2", "parse of arbitrary renderings of a tree is tied by correspondence; the string-level composition laws are C10's"),
  "C02": ("matchLeaf_eq_spec: on terms produced by the parser (parse_leavesOK: every term of every valid expression / allowed entry) matchLeaf IS the documented rule specMatch (refs exact, licence never a ref, equal exceptions, same id or the four +/no+ version cases over table positions); render_fold_inj (the EqualFold shortcut fires only for identical terms); symmetry, reflexivity, -or-later counts as +. Tie: M-op correspondence + documented rule evaluated by the harness over LicenseRanges(), incl. refs differing only in letter case.",
          "DESIGN.md 6 C02, 11.2", "relative to the shipped range table (positions = first occurrence); version ORDER of the table is C11's"),
- "C03": ("Layer G: the scanner (private buffer, integer cursor, expression[index-2:index-1] look-behind, all slice expressions of normalizeLicense incl. the buffer rewrite), the token cursor and the recursive-descent parser transliterated with explicit partial operations; g_parse_full_never_panics for EVERY byte string (cursor invariant). Census obligations: every index / slice expression of the package is accounted for; no type assertion, no division. Tie: Q-op runs the Go-shaped pipeline against the implementation AND against the main model on the systematic malformed stream; semantic workload (expansion, sort, dedup, matching) under recover.",
-         "DESIGN.md 6 C03, 11.2", "PARTIAL: expansion / sort comparators are covered by the census + recover workload, not by layer G; goroutine stack exhaustion and memory exhaustion are not modelled"),
+ "C03": ("Layer G: the scanner (private buffer, integer cursor, expression[index-2:index-1] look-behind, all slice expressions of normalizeLicense incl. the buffer rewrite), the token cursor and the recursive-descent parser transliterated with explicit partial operations; g_parse_full_never_panics for EVERY byte string (cursor invariant). Behind the parser (layer G part 4, Go-shaped index / slice / in-place-write operations that panic outside the length): g_sortAndDedup_never_panics and g_sortAndDedup_refines (the in-place loop leaves exactly the main model's sortAndDedupArray), g_deepSort_comparator (nodes2d[i][k] only below len; equals the model's order), g_deepSort_guard, g_mergeTerms_refines, g_stringsToNodes_fill, nil dereferences of reconstructedLicenseString (g_extract / g_satisfies_never_derefs_nil). Census obligations: every index / slice expression of the package is accounted for; no type assertion, no division. Tie: Q-op runs the Go-shaped pipeline against the implementation AND against the main model on the systematic malformed stream; semantic workload (expansion, sort, dedup, matching) under recover.",
+         "DESIGN.md 6 C03, 11.2", "PARTIAL: the indices sort.Slice hands to the comparators are in range by the contract of package sort (trusted); layer G is a hand transliteration tied by census, literal obligations and the Q-op, not generated; goroutine stack exhaustion and memory exhaustion are not modelled"),
  "C04": ("validate_spec (exactly the invalid elements, in order, with multiplicity), extract_err_iff, toNodes_ok_iff / toNodes_eq, satisfies_err_iff (error iff invalid expr / empty list / invalid or compound entry), satisfies_ok_of_valid. Tie: P/V/S/E correspondence + agreement oracle across the three entry points (lists up to 300 entries, boundary sizes, case-folded echoes).",
          "DESIGN.md 6 C04", "the false/nil result beside an error is observed on the implementation only"),
  "C05": ("parseTokens_iff: the recursive-descent parser accepts a token sequence iff it derives from the documented grammar D, with the tree the derivation denotes (unambiguity as corollary). Lexical level: lexeme_word / normCore (a clean word followed by a non-id byte is read by the normalisation cascade, which looks one byte ahead), scan_seqOK (what every emitted token carries), scanner compositional at boundaries (scan_append); literal obligations pin operator order, prefixes, regexps, suffixes and slice offsets to the source. Tie: P-op correspondence over all symbol sequences up to length 4 (5) in loose and tight spacing + word-level reference classifier over every listed id x suffix experiments.",
